@@ -1166,6 +1166,180 @@ def p5_inline_temps(fn, keep=None):
     return fn
 
 
+# ------------------------------------------------------------------------------------------ ZR1
+class _ZipRanges(ast.NodeTransformer):
+    """ZR1: `for a, b in zip(range(A0, A1), range(B0, B1))` with ranges of the same length (as linear forms) is
+    `for a in range(A0, A1): b = a + (B0 - A0)`."""
+
+    @staticmethod
+    def _descending(e):
+        """(first element, length) of `range(B0, B1, -1)` / `reversed(range(N))` / `reversed(range(A, B))`; None otherwise"""
+        if isinstance(e, ast.Call) and isinstance(e.func, ast.Name) and e.func.id == 'range' and len(e.args) == 3 and not e.keywords \
+                and isinstance(e.args[2], ast.UnaryOp) and isinstance(e.args[2].op, ast.USub) and isinstance(e.args[2].operand, ast.Constant) and e.args[2].operand.value == 1:
+            return e.args[0], ast.BinOp(left=e.args[0], op=ast.Sub(), right=e.args[1])
+        if isinstance(e, ast.Call) and isinstance(e.func, ast.Name) and e.func.id == 'reversed' and len(e.args) == 1 and isinstance(e.args[0], ast.Call) \
+                and isinstance(e.args[0].func, ast.Name) and e.args[0].func.id == 'range' and len(e.args[0].args) in (1, 2):
+            r = e.args[0]
+            lo = r.args[0] if len(r.args) == 2 else ast.Constant(value=0)
+            return ast.BinOp(left=r.args[-1], op=ast.Sub(), right=ast.Constant(value=1)), ast.BinOp(left=r.args[-1], op=ast.Sub(), right=lo)
+        return None
+
+    @staticmethod
+    def _leq(a, b):
+        """a <= b for lengths (linear forms over non-negative names; an opaque `<x // c>` with c >= 1 is at most x)"""
+        if (b - a).nonneg():
+            return True
+        import re
+        syms = [s_ for s_ in a.syms() if s_.startswith('<')]
+        if len(a.syms()) == 1 and len(syms) == 1 and a.c == 0 and a.coef(syms[0]) == 1:
+            m_ = re.fullmatch(r'<(\w+) // (\d+)>', syms[0])
+            if m_ and int(m_.group(2)) >= 1:
+                from .linform import Lin
+                return (b - Lin.sym(m_.group(1))).nonneg()
+        return False
+
+    def visit_For(self, n):
+        self.generic_visit(n)
+        it, tg = n.iter, n.target
+        if isinstance(it, ast.Call) and isinstance(it.func, ast.Name) and it.func.id == 'zip' and len(it.args) == 2 and not it.keywords \
+                and isinstance(tg, ast.Tuple) and len(tg.elts) == 2 and all(isinstance(x, ast.Name) for x in tg.elts) \
+                and isinstance(it.args[0], ast.Call) and isinstance(it.args[0].func, ast.Name) and it.args[0].func.id == 'range' and len(it.args[0].args) in (1, 2) \
+                and self._descending(it.args[1]) is not None:
+            # second component counts down: b = B0 - (a - A0), provided the descending range is at least as long as the first
+            from .linform import to_lin, Lin
+            r0 = it.args[0]
+            lo0 = r0.args[0] if len(r0.args) == 2 else ast.Constant(value=0)
+            b0, blen = self._descending(it.args[1])
+            l0 = to_lin(ast.BinOp(left=r0.args[-1], op=ast.Sub(), right=lo0), {}, opaque=True)
+            l1 = to_lin(blen, {}, opaque=True)
+            a, b = tg.elts
+            stored = {x.id for s_ in n.body for x in ast.walk(s_) if isinstance(x, ast.Name) and isinstance(x.ctx, ast.Store)}
+            if l0 is not None and l1 is not None and self._leq(l0, l1) and not ({a.id, b.id} & stored):
+                val = ast.BinOp(left=copy.deepcopy(b0), op=ast.Sub(), right=ast.BinOp(left=ast.Name(id=a.id, ctx=ast.Load()), op=ast.Sub(), right=copy.deepcopy(lo0)))
+                lo0c = to_lin(lo0, {}, opaque=False)
+                if lo0c is not None and lo0c == 0:
+                    val = ast.BinOp(left=copy.deepcopy(b0), op=ast.Sub(), right=ast.Name(id=a.id, ctx=ast.Load()))
+                first = ast.Assign(targets=[ast.Name(id=b.id, ctx=ast.Store())], value=val)
+                new = ast.For(target=ast.Name(id=a.id, ctx=ast.Store()), iter=r0, body=[first] + n.body, orelse=n.orelse)
+                ast.copy_location(new, n)
+                for x in ast.walk(first):
+                    ast.copy_location(x, n)
+                return new
+            return n
+        if isinstance(it, ast.Call) and isinstance(it.func, ast.Name) and it.func.id == 'zip' and len(it.args) == 2 and not it.keywords \
+                and isinstance(tg, ast.Tuple) and len(tg.elts) == 2 and all(isinstance(x, ast.Name) for x in tg.elts) \
+                and all(isinstance(a, ast.Call) and isinstance(a.func, ast.Name) and a.func.id == 'range' and len(a.args) in (1, 2) and not a.keywords for a in it.args):
+            from .linform import to_lin
+            r0, r1 = it.args
+            lo0 = r0.args[0] if len(r0.args) == 2 else ast.Constant(value=0)
+            lo1 = r1.args[0] if len(r1.args) == 2 else ast.Constant(value=0)
+            l0, l1 = to_lin(ast.BinOp(left=r0.args[-1], op=ast.Sub(), right=lo0), {}, opaque=False), to_lin(ast.BinOp(left=r1.args[-1], op=ast.Sub(), right=lo1), {}, opaque=False)
+            a, b = tg.elts
+            stored = {x.id for s_ in n.body for x in ast.walk(s_) if isinstance(x, ast.Name) and isinstance(x.ctx, ast.Store)}
+            if l0 is not None and l0 == l1 and not ({a.id, b.id} & stored):
+                off = ast.BinOp(left=copy.deepcopy(lo1), op=ast.Sub(), right=copy.deepcopy(lo0))
+                val = ast.BinOp(left=ast.Name(id=a.id, ctx=ast.Load()), op=ast.Add(), right=off)
+                lo0c = to_lin(lo0, {}, opaque=False)
+                if lo0c is not None and lo0c == 0:
+                    val = ast.BinOp(left=ast.Name(id=a.id, ctx=ast.Load()), op=ast.Add(), right=copy.deepcopy(lo1))
+                first = ast.Assign(targets=[ast.Name(id=b.id, ctx=ast.Store())], value=val)
+                new = ast.For(target=ast.Name(id=a.id, ctx=ast.Store()), iter=r0, body=[first] + n.body, orelse=n.orelse)
+                ast.copy_location(new, n)
+                for x in ast.walk(first):
+                    ast.copy_location(x, n)
+                return new
+        return n
+
+
+# ------------------------------------------------------------------------------------------ LB1
+def lb1_inline_lambdas(fn):
+    """LB1: a local name bound once to a lambda with an expression body and only ever *called* (positional arguments that are names,
+    constants or attribute chains) is applied where it is called: `p = lambda v: E; .. p(a) ..` reads `.. E[v := a] ..`.  (A lambda
+    reads its free variables when it is called, so the expression means the same at the call site.)"""
+    changed = False
+    for _ in range(4):
+        cands = {}
+        stores = {}
+        for n in _walk(fn):
+            if isinstance(n, ast.Name) and isinstance(n.ctx, (ast.Store, ast.Del)):
+                stores[n.id] = stores.get(n.id, 0) + 1
+
+        def visit_block(block):
+            for s in block:
+                if isinstance(s, ast.Assign) and len(s.targets) == 1 and isinstance(s.targets[0], ast.Name) and isinstance(s.value, ast.Lambda):
+                    lam = s.value
+                    a = lam.args
+                    if not (a.vararg or a.kwarg or a.kwonlyargs or a.posonlyargs or a.defaults) and stores.get(s.targets[0].id) == 1 \
+                            and not any(isinstance(x, (ast.Lambda, ast.Await, ast.Yield, ast.NamedExpr, ast.ListComp, ast.GeneratorExp, ast.SetComp, ast.DictComp))
+                                        for x in ast.walk(lam.body)):
+                        cands[s.targets[0].id] = (s, lam, block)
+            return block
+        _walk_blocks(fn, visit_block)
+        done = False
+        for nm, (st, lam, block) in cands.items():
+            uses = [n for n in _walk(fn) if isinstance(n, ast.Name) and n.id == nm and isinstance(n.ctx, ast.Load)]
+            calls = [c for c in _walk(fn) if isinstance(c, ast.Call) and isinstance(c.func, ast.Name) and c.func.id == nm]
+            params = [x.arg for x in lam.args.args]
+            if not uses or len(uses) != len(calls) or any(c.keywords or len(c.args) != len(params)
+                                                          or not all(isinstance(a_, (ast.Name, ast.Constant, ast.Attribute)) for a_ in c.args) for c in calls):
+                continue
+            if any(isinstance(x, ast.Name) and x.id == nm for x in ast.walk(lam.body)):
+                continue
+
+            class Ap(ast.NodeTransformer):
+                def visit_Call(self, c):
+                    c = self.generic_visit(c)
+                    if isinstance(c.func, ast.Name) and c.func.id == nm:
+                        return ast.copy_location(_Subst(dict(zip(params, c.args))).visit(copy.deepcopy(lam.body)), c)
+                    return c
+            block.remove(st)
+            fn.body = [Ap().visit(x) for x in fn.body]
+            done = changed = True
+            break
+        if not done:
+            break
+    if changed:
+        ast.fix_missing_locations(fn)
+    return changed
+
+
+# ------------------------------------------------------------------------------------------ TS1
+def ts1_split_tuple(block):
+    """TS1: `a, b = X, Y` is `a = X; b = Y` when no later value reads an earlier target (names and attribute chains only; element
+    targets and swaps are left alone)."""
+    out = []
+    for s in block:
+        if isinstance(s, ast.Assign) and len(s.targets) == 1 and isinstance(s.targets[0], ast.Tuple) and isinstance(s.value, ast.Tuple) \
+                and len(s.targets[0].elts) == len(s.value.elts) >= 2 and all(isinstance(t, (ast.Name, ast.Attribute)) for t in s.targets[0].elts) \
+                and not any(isinstance(x, (ast.Starred, ast.Await, ast.NamedExpr, ast.Yield)) for x in ast.walk(s.value)):
+            tg, vs = s.targets[0].elts, s.value.elts
+            ok = True
+            for k in range(1, len(vs)):
+                earlier_names = {t.id for t in tg[:k] if isinstance(t, ast.Name)}
+                earlier_attrs = {ast.unparse(t) for t in tg[:k] if isinstance(t, ast.Attribute)}
+                for x in ast.walk(vs[k]):
+                    if isinstance(x, ast.Name) and x.id in earlier_names:
+                        ok = False
+                    if isinstance(x, ast.Attribute) and ast.unparse(x) in earlier_attrs:
+                        ok = False
+                    if isinstance(x, ast.Call):
+                        ok = ok and not earlier_attrs          # a call could read the attribute just stored
+            # a Name target that is also the root of a later Attribute target (`a, a.x = ..`) changes meaning when split
+            for k in range(1, len(tg)):
+                if isinstance(tg[k], ast.Attribute):
+                    root = tg[k]
+                    while isinstance(root, ast.Attribute):
+                        root = root.value
+                    if isinstance(root, ast.Name) and root.id in {t.id for t in tg[:k] if isinstance(t, ast.Name)}:
+                        ok = False
+            if ok:
+                for t, v in zip(tg, vs):
+                    out.append(ast.copy_location(ast.Assign(targets=[t], value=v), s))
+                continue
+        out.append(s)
+    return out
+
+
 # ------------------------------------------------------------------------------------------ RD1
 def rd1_reduce(block):
     """RD1: `v = functools.reduce(lambda a, x: E, SEQ, INIT)` is the fold `v = INIT; for x in SEQ: v = E[a := v]`."""
@@ -1209,6 +1383,19 @@ class _MapComp(ast.NodeTransformer):
                 and getattr(node.args[0], '_from_map', False) and f.id == 'list':
             g = node.args[0]
             return ast.copy_location(ast.ListComp(elt=g.elt, generators=g.generators), node)
+        if isinstance(f, ast.Name) and f.id == 'filter' and len(node.args) == 2 and not node.keywords and isinstance(node.args[0], (ast.Name, ast.Attribute)) \
+                and not isinstance(node.args[1], ast.Starred):
+            # filter(F, A) is the generator (v for v in A if F(v))
+            v = '_m'
+            call = ast.Call(func=node.args[0], args=[ast.Name(id=v, ctx=ast.Load())], keywords=[])
+            g = ast.GeneratorExp(elt=ast.Name(id=v, ctx=ast.Load()),
+                                 generators=[ast.comprehension(target=ast.Name(id=v, ctx=ast.Store()), iter=node.args[1], ifs=[call], is_async=0)])
+            g._from_map = True
+            ast.copy_location(g, node)
+            for x in ast.walk(g):
+                if not hasattr(x, 'lineno'):
+                    ast.copy_location(x, node)
+            return g
         if isinstance(f, ast.Name) and f.id == 'map' and len(node.args) == 2 and not node.keywords and isinstance(node.args[0], (ast.Name, ast.Attribute)) \
                 and not isinstance(node.args[1], ast.Starred):
             v = '_m'
@@ -1451,8 +1638,12 @@ def canon_function(fn_node, level=None, protocol=False, vocab=None, refsigs=None
                 break
     _walk_blocks(fn, p6_unpack1)
     _walk_blocks(fn, rd1_reduce)
+    _walk_blocks(fn, ts1_split_tuple)
     mc = _MapComp()
     fn.body = [mc.visit(s) for s in fn.body]
+    lb1_inline_lambdas(fn)
+    zr = _ZipRanges()
+    fn.body = [zr.visit(s) for s in fn.body]
     o = _Orient()
     fn.body = [o.visit(s) for s in fn.body]
     t = _Tests()
@@ -1573,21 +1764,20 @@ def helper_candidate(node):
     return 'a' + kind if is_async else kind
 
 
-def _tail_form(body):
-    """Guard-clause form -> nested if/else where every return is the last statement of its branch."""
+def _tail_form(body, depth=0):
+    """Guard-clause form -> nested if/else where every return is the last statement of its branch: the statements that follow an
+    `if` containing a return are moved into those of its branches that fall through (copied when both do)."""
     out = []
     for i, s in enumerate(body):
+        if isinstance(s, ast.If) and i + 1 < len(body) and depth < 12 and any(isinstance(x, ast.Return) for x in ast.walk(s)):
+            rest = body[i + 1:]
+            s.body = _tail_form(s.body if _ends_in_return(s.body) else s.body + copy.deepcopy(rest), depth + 1)
+            s.orelse = _tail_form(s.orelse if (s.orelse and _ends_in_return(s.orelse)) else s.orelse + copy.deepcopy(rest), depth + 1)
+            out.append(s)
+            return out
         if isinstance(s, ast.If):
-            s.body = _tail_form(s.body)
-            s.orelse = _tail_form(s.orelse)
-            if _ends_in_return(s.body) and not s.orelse and i + 1 < len(body):
-                s.orelse = _tail_form(body[i + 1:])
-                out.append(s)
-                return out
-            if s.orelse and _ends_in_return(s.orelse) and not _ends_in_return(s.body) and i + 1 < len(body):
-                s.body = s.body + _tail_form(copy.deepcopy(body[i + 1:]))
-                out.append(s)
-                return out
+            s.body = _tail_form(s.body, depth + 1)
+            s.orelse = _tail_form(s.orelse, depth + 1)
         out.append(s)
     return out
 
@@ -1729,10 +1919,13 @@ def h1_inline(fn, helpers, cls_name):
         return None, None
 
     def find_call(stmt):
-        """First helper call evaluated unconditionally in a simple statement."""
-        if not isinstance(stmt, (ast.Assign, ast.AugAssign, ast.Return, ast.Expr)):
+        """First helper call evaluated unconditionally in a simple statement (or in the test of an `if`)."""
+        if isinstance(stmt, ast.If):
+            val = stmt.test
+        elif not isinstance(stmt, (ast.Assign, ast.AugAssign, ast.Return, ast.Expr)):
             return None
-        val = stmt.value
+        else:
+            val = stmt.value
         if val is None:
             return None
         stack = [val]
@@ -1761,6 +1954,18 @@ def h1_inline(fn, helpers, cls_name):
         nonlocal changed
         out = []
         for s in block:
+            # `if A and <.. helper call ..>: X` (no else): the call is evaluated only when A holds -- nest the tests first
+            if isinstance(s, ast.If) and not s.orelse and isinstance(s.test, ast.BoolOp) and isinstance(s.test.op, ast.And) and find_call(s) is None:
+                vs = s.test.values
+                for k in range(1, len(vs)):
+                    probe = ast.If(test=vs[k], body=[], orelse=[])
+                    if find_call(probe) is not None:
+                        outer_t = vs[0] if k == 1 else ast.BoolOp(op=ast.And(), values=vs[:k])
+                        inner_t = vs[k] if k == len(vs) - 1 else ast.BoolOp(op=ast.And(), values=vs[k:])
+                        inner = ast.copy_location(ast.If(test=inner_t, body=s.body, orelse=[]), s)
+                        s = ast.copy_location(ast.If(test=outer_t, body=run([inner]), orelse=[]), s)
+                        changed = True
+                        break
             hit = find_call(s)
             if hit is None:
                 out.append(s)
@@ -1769,6 +1974,20 @@ def h1_inline(fn, helpers, cls_name):
             inst = _instantiate(h, call, recv, tail=isinstance(s, ast.Return) and s.value is call)
             if inst is None:
                 out.append(s)
+                continue
+            if isinstance(s, ast.If):
+                # the helper's body runs before the test is decided; its result is the temporary the test now reads
+                tmp = f'_h{_HCOUNT[0]}_ret'
+                new = _returns_to(inst, lambda r: [ast.Assign(targets=[ast.Name(id=tmp, ctx=ast.Store())],
+                                                              value=r.value if r.value is not None else ast.Constant(value=None))])
+                s.test = _ReplaceNode(call, ast.Name(id=tmp, ctx=ast.Load())).visit(s.test)
+                new = new + [s]
+                for x in new:
+                    for y in ast.walk(x):
+                        if not hasattr(y, 'lineno'):
+                            ast.copy_location(y, s)
+                out.extend(new)
+                changed = True
                 continue
             whole = s.value is call
             if isinstance(s, ast.Return) and whole:
